@@ -268,6 +268,7 @@ func (r *replicator) takeOver(ctx context.Context, req *request) {
 	})
 	defer stop()
 
+	retried := map[cid.Cid]struct{}{}
 	for ctx.Err() == nil {
 		started, busy := false, false
 
@@ -279,8 +280,13 @@ func (r *replicator) takeOver(ctx context.Context, req *request) {
 
 			case stateFailed:
 				if _, ok := r.givenUp[hash]; !ok {
-					// could not be fetched: left to the next request, as ever
-					continue
+					// could not be fetched: this request tries it once more (the failure may
+					// have been recorded after the request had looked), then it is left to the
+					// next request, as ever
+					if _, ok := retried[hash]; ok {
+						continue
+					}
+					retried[hash] = struct{}{}
 				}
 
 				delete(r.tasks, hash)
